@@ -30,6 +30,7 @@ static Case gen_compress_case(uint64_t seed, int tier, const char *prop, bool bo
 struct C02 : Driver {
   const char *prop() const override { return "C02"; }
   const char *level() const override { return "exploration"; }
+  const char *variants(int) const override { return "plain preempt/6"; }   // preempt: decision points inside unsynchronised code too (seeded change C02-4)
   uint64_t ncases(int tier) const override { return tier ? 250000 : 24000; }
   std::string rule() const override {
     return "case = (generated input, level 1-9, mode, -n, schedule, I/O fragmentation) compressed in the simulator; the output is parsed bit by bit by the independent strict inspector "
@@ -69,6 +70,7 @@ static Registrar r02(new C02);
 struct C04 : Driver {
   const char *prop() const override { return "C04"; }
   const char *level() const override { return "exploration"; }
+  const char *variants(int) const override { return "plain preempt/6"; }
   uint64_t ncases(int tier) const override { return tier ? 80000 : 6000; }
   std::string rule() const override {
     return "case = boundary-biased input (run structures whose run-length-encoded size lands on capacity-3..capacity+3, runs straddling chunk boundaries, runs around 4/255/259) compressed at level L in default or --sequential mode, -n 1..8, seeded schedule; "
